@@ -786,7 +786,7 @@ func mFormat(e *Engine, a []Value) Str {
 			return r
 		}
 	}
-	e.imprecise("fmt: "+f)
+	e.imprecise("fmt: " + f)
 	return Str{S: f + " :: " + strings.Join(parts, ",")}
 }
 
